@@ -8,13 +8,14 @@ CONSTANTS InitPrios,   \* e.g. <<1, 2, 3>>
           SetPrios,    \* priorities used by SetPollPriority, e.g. {1, 2, 3, 5}
           Alphabet,    \* subset of {"next","tick","setprio","addback","addfront","conduse","readd"}
           K,           \* perturbation cap of the monitor
+          ReAddPinned, \* TRUE: design before the repair of MessageMap::add (new instance keeps poll order 0)
           CapBase      \* cap of the absolute minimum in the normal form (0 unless "readd" is in the alphabet)
 NMsg == Len(InitPrios)
 
 VARIABLES st, mon, obs
 View == <<Norm(st, CapBase), mon>>
 
-Init == st = SInitF(InitPrios) /\ mon = [MonInit(NMsg) EXCEPT !.hi = MaxPrio(InitPrios), !.mx = InitPrios, !.lo = InitPrios] /\ obs = [k |-> "init", m |-> 0, a |-> 0, sel |-> 0]
+Init == st = SInitF(InitPrios, ReAddPinned) /\ mon = [MonInit(NMsg) EXCEPT !.hi = MaxPrio(InitPrios), !.mx = InitPrios, !.lo = InitPrios] /\ obs = [k |-> "init", m |-> 0, a |-> 0, sel |-> 0]
 
 DoNext == LET r == NextF(st) IN
           /\ r.sel # 0
@@ -31,7 +32,7 @@ Next ==
   \/ "addback" \in Alphabet /\ \E m \in 1..NMsg : Perturb("addback", m, 0, AddPollF(st, FALSE, m))
   \/ "addfront" \in Alphabet /\ \E m \in 1..NMsg : Perturb("addfront", m, 0, AddPollF(st, TRUE, m))
   \/ "conduse" \in Alphabet /\ \E m \in 1..NMsg : Perturb("conduse", m, 0, CondUseF(st, m))
-  \/ "readd" \in Alphabet /\ \E m \in 1..NMsg : Perturb("readd", m, 0, ReAddF(st, m, InitPrios[m]))
+  \/ "readd" \in Alphabet /\ \E m \in 1..NMsg : Perturb("readd", m, 0, ReAddF(st, m, InitPrios[m], ReAddPinned))
 
 (* S => P *)
 PWait == WaitOk(mon, st.prio, K)
@@ -56,4 +57,5 @@ AlphaPert == {"next", "tick", "setprio", "addback", "addfront", "conduse"}
 AlphaPertNoTick == {"next", "setprio", "addback", "addfront"}
 AlphaPertCond == {"next", "setprio", "addback", "addfront", "conduse"}
 AlphaReAdd == {"next", "readd"}
+AlphaReAddAll == {"next", "readd", "setprio", "addfront"}
 =============================================================================
